@@ -99,7 +99,7 @@ void Kernel::reset(const World &nw, uint64_t nsalt) {
 }
 
 // ------------------------------------------------------------------ VFS
-int Kernel::vfs_add(int parent, const std::string &name, VNode::K kind) {
+int Kernel::vfs_add(int parent, std::string name, VNode::K kind) {
   VNode n; n.kind = kind; n.parent = parent; n.name = name;
   vfs.push_back(n);
   int id = (int) vfs.size() - 1;
